@@ -9,4 +9,5 @@ CONSTANTS
   Families = {"rich", "rand"}
   NRand = 40
   RandSize = 10
+INVARIANT TreesOK0
 INVARIANT Emit
